@@ -6,10 +6,7 @@
 (* catalogued real file operation (via = "api").                               *)
 EXTENDS Sec, Json, TLC
 Trace == ndJsonDeserialize("records.ndjson")
-VARIABLE l
-Init == l = 1
-Next == l <= Len(Trace) /\ l' = l + 1
-Spec == Init /\ [][Next]_l
+VARIABLES l, bad
 
 DocOf(r) == [enc |-> TRUE, alg |-> r.alg, upw |-> r.upw, opw |-> r.opw, perm |-> r.p]
 Refusals == {"ErrPermissionDenied", "ErrWrongPassword", "ErrOwnerPasswordRequired", "ErrEncrypted", "ErrNotEncrypted"}
@@ -21,6 +18,13 @@ JudgeItem(r, it) ==
     ELSE it.out = e
 
 Bad(r) == {i \in DOMAIN r.outs : ~JudgeItem(r, r.outs[i])}
-RecordOK == l <= Len(Trace) => (Bad(Trace[l]) = {} \/ ~PrintT(<<"BAD", ToJson([l |-> l, bad |-> Bad(Trace[l])])>>))
+Init == l = 1 /\ bad = 0
+Next == /\ l <= Len(Trace)
+        /\ l' = l + 1
+        /\ bad' = bad + Cardinality(Bad(Trace[l]))
+Spec == Init /\ [][Next]_<<l, bad>>
+(* every rejected item is printed (BAD) and counted; AllAccepted fails at the end if any was rejected *)
+Report == (l <= Len(Trace) /\ Bad(Trace[l]) # {}) => PrintT(<<"BAD", ToJson([l |-> l, bad |-> Bad(Trace[l])])>>)
+AllAccepted == l = Len(Trace) + 1 => bad = 0
 TraceAccepted == TLCGet("stats").diameter = Len(Trace) + 1
 =============================================================================
